@@ -207,3 +207,15 @@ PROPS = {
         reach=["EAGAINWrite", "ShortWrites", "ShortReads"],
     ),
 }
+
+# ---- scaling after the shared-process search accelerator (DESIGN.md 12.6) ----
+# The run counts above were calibrated for one OS process per run (~25 runs/s on this VM, which serialises process
+# creation). Running the jobs of a chunk in one process is 5-10 times cheaper, so the same wall-clock budgets now hold
+# several times more runs. Enumerations (explicit variant lists) are complete as they are and are not scaled.
+_QUICK_MULT = {"C02": 4, "C03": 3, "C07": 4, "C08": 4, "C14": 3, "C17": 3, "C18": 3, "C19": 2, "C20": 4}
+_THOROUGH_MULT = {"C18": 2, "C19": 3}
+for _p, _cfg in PROPS.items():
+    for _spec in _cfg["quick"]["profiles"]:
+        _spec["runs"] *= _QUICK_MULT.get(_p, 5)
+    for _spec in _cfg["thorough"]["profiles"]:
+        _spec["runs"] *= _THOROUGH_MULT.get(_p, 8)
